@@ -54,6 +54,44 @@ SEEDS.update({
  "C20b": dict(prop="C20", file="pool/_wrapper.py (SubSamplingWrapper.query)", needs="exclude_non_subsample=True and a missing-label sentinel other than NaN", caught_by=["C20", "C09"],
               first_version="MISSED by C20 (caught by C09): C20 used NaN as missing label only; its sub-sampling part now also runs with the reserved number -1"),
 })
+
+# round 3: sub-agents were told where both earlier attempts were made and asked for defects that need a longer history, a larger input or a
+# combination of options; "first_version" is what the checks as of commit 72c95f7 (before this round) reported, re-run against the patch
+SEEDS.update({
+ "C01c": dict(prop="C01", file="pool/_typi_clust.py (query)", needs="batch_size >= 2 and a tie that includes an already selected sample (index-subset candidates whose cluster holds no candidate, or duplicated points)", caught_by=["C01", "C02"], first_version="caught"),
+ "C02c": dict(prop="C02", file="pool/_core_set.py (_update_distances)", needs="all remaining candidates coincide with labeled / selected points and at least two earlier picks in the batch (batch_size >= 3 on duplicated points)", caught_by=["C02", "C01"], first_version="caught"),
+ "C03c": dict(prop="C03", file="stream/_density_uncertainty.py (StreamDensityBasedAL.query)", needs="more than window_size samples, a query before the eviction point and a comparison with an object that reached the same point by update calls only (the state snapshot loses the deque's maxlen)", caught_by=["C03"],
+              first_version="MISSED: every transition of the exploration was query+update, so both sides of every comparison had been queried; C03 now also drives a twin that only receives the updates and compares the end states"),
+ "C04c": dict(prop="C04", file="stream/budgetmanager/_estimated_budget_zliobaite.py (EstimatedBudgetZliobaite.update)", needs="update of a chunk of >= 2 instances without any granted label after budget was spent (operator precedence wipes the spent-budget estimate)", caught_by=["C04", "C10"], first_version="caught"),
+ "C05c": dict(prop="C05", file="pool/_prob_cover.py (query)", needs="deltas given as an unsorted float64 ndarray (sorted in place: the constructor parameter and the caller's array change)", caught_by=["C05"],
+              first_version="MISSED: no subject had an array-valued constructor parameter given as ndarray; C05 now has such variants (ProbCover deltas, ProbabilisticAL prior, UncertaintySampling / CostEmbeddingAL cost_matrix)"),
+ "C06c": dict(prop="C06", file="utils/_validation.py (check_budget_manager)", needs="an explicitly passed, already used randomised budget manager shared by two strategies and an update on one of them before the other queries (shallow copy shares random_state_)", caught_by=["C06"],
+              first_version="MISSED: twin strategies were always built from fresh managers; C06 now builds twins around one caller-owned used manager object"),
+ "C07c": dict(prop="C07", file="pool/multiannotator/_wrapper.py (SingleAnnotatorWrapper.query)", needs="n_annotators_per_sample given as an array shorter than batch_size and batch_size larger than the number of selectable samples (query raises)", caught_by=["C07"],
+              first_version="MISSED: n_annotators_per_sample was an int in every case; per-rank preference lists were added"),
+ "C08c": dict(prop="C08", file="pool/utils.py (IndexClassifierWrapper.partial_fit)", needs="an expected-error-reduction strategy with ignore_partial_fit=False and a classifier with native partial_fit: simulated labels accumulate in the aliased base model, so utilities depend on the candidates evaluated before", caught_by=["C08", "C19"],
+              first_version="MISSED by C08 (C19 reported it): all EER subjects used the re-fit path; a MonteCarloEER subject with GaussianNB and ignore_partial_fit=False was added to the pool catalogue (C01, C02, C05, C06, C08, C09, C14)"),
+ "C09c": dict(prop="C09", file="classifier/_wrapper.py (SlidingWindowClassifier._add_samples)", needs="only_labeled=True with a window and NaN as missing label (y != nan keeps every unlabeled sample in the window)", caught_by=["C09"],
+              first_version="MISSED: the sliding-window subject used only_labeled=False; an only_labeled variant was added to the classifier catalogue (C06, C09, C11, C13)"),
+ "C10c": dict(prop="C10", file="stream/budgetmanager/_estimated_budget_zliobaite.py (SplitBudgetManager.update)", needs="budget exhausted at least once and a chunk of >= 2 instances in which an exhausted instance is followed by one with budget (update draws a random number per instance, query only with budget left)", caught_by=["C10"], first_version="caught"),
+ "C11c": dict(prop="C11", file="classifier/multiannotator/_annotator_logistic_regression.py (fit)", needs="a refit of the same object on a training set without any label after a fit with labels (old weights survive, no uniform distribution)", caught_by=["C11", "C13"],
+              first_version="MISSED: C11 fitted fresh objects only and C13 had no data set without labels; C11 got a refit mode, C13 the data set D0"),
+ "C12c": dict(prop="C12", file="classifier/_wrapper.py (SklearnClassifier._fit)", needs="non-uniform sample weights and an unlabeled sample among the first n_classes rows (weights indexed by class index instead of the labeled mask)", caught_by=["C12"], first_version="caught"),
+ "C13c": dict(prop="C13", file="classifier/_wrapper.py (SklearnClassifier._fit)", needs="fit(A), fit(U) with all labels missing, then partial_fit(B): the estimator of the first fit is continued", caught_by=["C13"],
+              first_version="MISSED: no data set without labels in the operation alphabet (D0 added)"),
+ "C14c": dict(prop="C14", file="pool/_badge.py (query)", needs="the all-zero-distance fall-back active for a whole batch (one-hot predictions) and batch_size >= 3", caught_by=["C14", "C01"],
+              first_version="MISSED: the violation was swallowed by the known finding about Badge duplicates that existed then (same subject, same kind, same output predicate). That defect has since been repaired in /repo (fix: 8849f1cd), and with the finding gone C14 and C01 report the seed. Lesson recorded in DESIGN 3.7: a known finding hides every defect with the same signature, so findings are repaired whenever the repair is small"),
+ "C15c": dict(prop="C15", file="regressor/_nic_kernel_regressor.py (_combine_params)", needs="targets with a large common offset and a prior mean near that level (cancellation in the rewritten scatter term gives a negative variance)", caught_by=["C15"],
+              first_version="MISSED: for improper priors the std clause was not judged at all and no proper prior sat near the offset; C15 now judges location / scale (and std where df > 2) for improper priors with >= 2 weighted labels and has a NIC subject whose prior mean is the offset"),
+ "C16c": dict(prop="C16", file="utils/_label.py (labeled_indices / unlabeled_indices)", needs="a Fortran-ordered 2-D label array (e.g. np.array([annot_1, annot_2]).T) with a mixed pattern", caught_by=["C16"],
+              first_version="MISSED: all arrays were C-contiguous; a third container (Fortran-ordered 2-D arrays, strided 1-D views) was added"),
+ "C17c": dict(prop="C17", file="utils/_multi_annot.py (ext_confusion_matrix)", needs="an integer missing_label that coincides with an encoded class index (0 <= missing_label < n_classes)", caught_by=["C17"], first_version="caught (encoding int10/0); encodings int1/0 and intgap/2 were added to C17, int1/0 to C09 and C16"),
+ "C18c": dict(prop="C18", file="utils/_selection.py (simple_batch, proportional)", needs="weights of very different magnitude, a NaN / zero weight before the light entries and a batch larger than the number of heavy entries", caught_by=["C18"], first_version="caught; a tiny-weight alphabet (1e-6, 1e-300) was added to the proportional cases all the same"),
+ "C19c": dict(prop="C19", file="pool/utils.py (IndexClassifierWrapper.__init__)", needs="a wrapper built around an already fitted classifier with set_base_clf=True, native partial_fit, an update of the current model and then partial_fit(use_base_clf=True)", caught_by=["C19"],
+              first_version="MISSED: the wrapper was always built around an unfitted classifier; prefit configurations were added"),
+ "C20c": dict(prop="C20", file="pool/multiannotator/_wrapper.py (_n_to_assign_annotators)", needs="n_annotators_per_sample >= 2, a selected sample with fewer available annotators and a batch of >= 3 pairs", caught_by=["C20", "C07"],
+              first_version="MISSED by C20 (its order oracle ran with one annotator per sample only; now also with two)"),
+})
 INVALID = {"C02": "rand_argmax with np.isclose: FAILS skactiveml/pool/tests/test_uncertainty_sampling.py::TestUncertaintySampling::test_query under the repository's serial baseline command (it only passes under pytest-xdist, which the sub-agent used); not kept. C02 (real-seed runs) and C18 (near-tie alphabet, added because of it) both report it.",
            "C18": "identical patch to the C02 attempt (np.isclose in rand_argmax); not kept for the same reason."}
 
